@@ -21,12 +21,17 @@ X1 == [ver |-> "1", horder |-> <<H("Host"), HV("Accept", "*/*"), HO("Cookie")>>,
 
 LabelA == [ty |-> "s", class |-> <<"unix">>, name |-> "Linux", flavor |-> <<"3.x">>]
 LabelB == [ty |-> "g", class |-> <<>>, name |-> "Anon", flavor |-> <<>>]
+\* the flavor is the REST of the line: it may contain colons, blanks, brackets; names may contain blanks and dots
+LabelC == [ty |-> "s", class |-> <<"unix">>, name |-> "Linux", flavor |-> <<"2.6.x (NAT: masquerade)">>]
+LabelD == [ty |-> "g", class |-> <<"win">>, name |-> "Windows NT 4.0", flavor |-> <<"kernel 6.x: generic = any">>]
 
 Sections == <<"tcp:request", "tcp:response", "http:request", "http:response", "mtu", "foo">>
 
 SecLine(n)  == [kind |-> "section", name |-> n, raw |-> "[" \o n \o "]"]
 LabelLines  == <<[kind |-> "label", text |-> PrintLabel(LabelA), label |-> LabelA, raw |-> "label = " \o PrintLabel(LabelA)],
-                 [kind |-> "label", text |-> PrintLabel(LabelB), label |-> LabelB, raw |-> "label=" \o PrintLabel(LabelB)]>>
+                 [kind |-> "label", text |-> PrintLabel(LabelB), label |-> LabelB, raw |-> "label=" \o PrintLabel(LabelB)],
+                 [kind |-> "label", text |-> PrintLabel(LabelC), label |-> LabelC, raw |-> "label = " \o PrintLabel(LabelC)],
+                 [kind |-> "label", text |-> PrintLabel(LabelD), label |-> LabelD, raw |-> "label =" \o PrintLabel(LabelD)]>>
 SigLines    == <<[kind |-> "sig", ty |-> "tcp", text |-> PrintTcpSig(T1), n |-> 0, raw |-> "sig   = " \o PrintTcpSig(T1)],
                  [kind |-> "sig", ty |-> "tcp", text |-> PrintTcpSig(T2), n |-> 0, raw |-> "sig=" \o PrintTcpSig(T2)],
                  [kind |-> "sig", ty |-> "http", text |-> PrintHttpSig(X1), n |-> 0, raw |-> "sig = " \o PrintHttpSig(X1)],
